@@ -100,13 +100,14 @@ func (s sortableByProperty) Less(i, j int) bool {
 }
 
 // RecordEntry returns the entry that the record item (a map with string keys of any string type, a map with
-// interface keys, or an ordered map; possibly behind a Drop) has under key, with Drops resolved.
+// interface keys, or an ordered map; possibly behind a Drop) has under key, with Drops resolved and pointers
+// followed the way a property lookup does.
 func RecordEntry(item any, key string) (any, bool) {
 	value := ToLiquid(item)
 	if ms, ok := value.(yaml.MapSlice); ok {
 		for _, e := range ms {
 			if k, ok := ToLiquid(e.Key).(string); ok && k == key {
-				return ToLiquid(e.Value), true
+				return ValueOf(e.Value).Interface(), true
 			}
 		}
 		return nil, false
@@ -126,5 +127,5 @@ func RecordEntry(item any, key string) (any, bool) {
 	if !elem.IsValid() {
 		return nil, false
 	}
-	return ToLiquid(elem.Interface()), true
+	return ValueOf(elem.Interface()).Interface(), true
 }
